@@ -190,6 +190,42 @@ def check_fixed(ctx, tz):
             ctx.violation('malformed-wrong-exception', {'string': s}, '%s: %s' % (type(e).__name__, e))
 
 
+def check_gmt_named_rule_zones(ctx, tz):
+    """'GMT+h' / 'UTC-h' followed by a daylight part: the h hours ahead / behind reading applies to the whole zone
+    (standard offset, default daylight offset = standard + 1 h, rule times), and posix_offset=True flips all of it"""
+    for s, std, stdoff, dst, dstoff, kw in (('UTC+3XDT,M3.2.0,M11.1.0', 'UTC', 10800, 'XDT', 14400, {}),
+                                            ('GMT-5EDT,M3.2.0/2,M11.1.0/2', 'GMT', -18000, 'EDT', -14400, {}),
+                                            ('UTC+3XDT,M3.2.0,M11.1.0', 'UTC', -10800, 'XDT', -7200, {'posix_offset': True}),
+                                            ('GMT+1BST,M10.1.0,M3.5.0/3', 'GMT', 3600, 'BST', 7200, {})):
+        pz = PZ.PosixZone(std, stdoff, dst, dstoff, ('M', 3, 2, 0) if 'M3.2.0' in s and 'M10' not in s else ('M', 10, 1, 0), 7200,
+                          ('M', 11, 1, 0) if 'M11' in s else ('M', 3, 5, 0), 7200 if 'M11' in s else 10800)
+        ctx.count('gmt_named_rule_zones')
+        try:
+            z = tz.tzstr(s, **kw)
+        except Exception as e:
+            ctx.violation('tzstr-rejected', {'zone': s, 'options': kw}, '%s: %s' % (type(e).__name__, e))
+            continue
+        check_zone(ctx, tz, 'tzstr(%s%s)' % (s, ', posix_offset=True' if kw else ''), 'tzstr', z, pz, classify_k3=False)
+
+
+def check_tzrange_offset_types(ctx, tz, relativedelta):
+    """tzrange takes its offsets as seconds or as timedeltas, in any mixture: the zone is the same"""
+    pz = PZ.PosixZone('AAA', 10800, 'BBB', 18000, ('M', 3, 2, 0), 7200, ('M', 11, 1, 0), 7200)
+    ref = tzzoo.tzrange_equivalent(tz, relativedelta, pz)
+    td = D.timedelta
+    for label, so, do in (('int,timedelta', 10800, td(hours=5)), ('timedelta,int', td(hours=3), 18000), ('timedelta,timedelta', td(hours=3), td(hours=5)),
+                          ('float,float', 10800.0, 18000.0), ('int,int', 10800, 18000)):
+        ctx.ev()
+        ctx.count('tzrange_offset_type_mixes')
+        ctx.distinct('tzrange-types|' + label)
+        try:
+            z = tz.tzrange('AAA', so, 'BBB', do, start=ref._start_delta, end=ref._end_delta)
+        except Exception as e:
+            ctx.violation('tzrange-rejected', {'offset_types': label}, '%s: %s' % (type(e).__name__, e))
+            continue
+        check_zone(ctx, tz, 'tzrange(offsets as %s)' % label, 'tzrange', z, pz, classify_k3=False)
+
+
 def run(ctx):
     from dateutil import relativedelta, tz
     if not PZ.selftest():
@@ -251,6 +287,8 @@ def run(ctx):
             if i % 10 == 0:
                 ctx.sample({'tz_string': s, 'transitions_2020_utc': [t.isoformat() for t in pz.transitions(2020)]})
         check_fixed(ctx, tz)
+        check_gmt_named_rule_zones(ctx, tz)
+        check_tzrange_offset_types(ctx, tz, relativedelta)
         check_malformed(ctx, tz, rng, valid[:40])
         for k, v in hits.items():
             ctx.hit(k, v)
